@@ -21,3 +21,212 @@ Example C14_empty_master :
   dp_transmit default_params 256 (set_last_gc (set_op (dp_new 0 false) OpOperate) (Some 0)) 0 false =
   Ok (set_events (set_last_gc (set_op (dp_new 0 false) OpOperate) (Some 0)) (mkEvents true None), None).
 Proof. reflexivity. Qed.
+
+(* ================================================================================================ *)
+(* C14, history theorems (Proofs/C14History.v).
+
+   Histories: `run_g auto pa bufsize m0 cbs` executes an ARBITRARY list of callbacks on the DP master
+   model from m0: the three FdlApplication callbacks (CTx CRx CTo), take_last_events (CTake) and the user
+   API calls request_diagnostics / pi_q writes / enter_state (CReqDiag CWriteQ CEnter) in any order, with any
+   replies (any telegram), any losses (a request followed by CTo or by nothing at all = the token was given
+   up in the middle of a cycle) and any times.  With auto = true take_last_events() follows every
+   FdlApplication callback.  A panic ends the run, so a statement about `run_g .. = Ok tr` holds for every
+   prefix of every execution up to a panic; C14_contract_safe shows that within the FdlApplication contract
+   (C15) the unreachable!() sites of receive_reply are never hit.  The peripheral set is fixed during a
+   history (add() is not a callback; slot vectors are arbitrary: empty, all None, sparse).
+   Each item of the trace carries a ghost log `it_log` of the calls made to the Peripheral objects
+   (GSend / GSkip = Peripheral::transmit_telegram returned a request / nothing, GReply =
+   Peripheral::receive_reply, GGc = global control written); C14_ghost_erasure: the instrumented functions
+   are the model functions plus the log.
+   `accepts St I mon s m tr`: the monitor `mon` started in state s accepts the trace, and invariant I holds
+   between the master and the monitor state before every callback and at the end. *)
+From PB Require Import DpOracle C14History.
+
+Theorem C14_ghost_erasure :
+  (forall pa bufsize m now hp, drop_log (dp_transmit_g pa bufsize m now hp) = dp_transmit pa bufsize m now hp) /\
+  (forall m addr t, drop_log (dp_receive_reply_g m addr t) = dp_receive_reply m addr t) /\
+  (forall auto pa bufsize cbs m,
+     match run_g auto pa bufsize m cbs with
+     | Ok tr => run auto pa bufsize m cbs = Ok (map strip tr, final m tr)
+     | Panic s => run auto pa bufsize m cbs = Panic s
+     | OutOfFuel => run auto pa bufsize m cbs = OutOfFuel
+     end).
+Proof. exact (conj dp_transmit_erase (conj dp_receive_reply_erase run_erase)). Qed.
+Print Assumptions C14_ghost_erasure.
+
+(* C14_one_turn_each.  Monitor state `rem` = the occupied slots that still have to get their turn in this
+   pass (cycle_item / turn_entry): a request is sent only by the head of rem (its turn is in progress), a turn
+   ends only for the head of rem, which is then removed (so every occupied slot gets exactly one turn per
+   pass, in slot order, and nobody else gets one); when the last turn has ended the callback reports
+   cycle_completed and the next pass starts with all occupied slots.  The invariant cycle_inv says that
+   rem is exactly the concrete cycle position (pos_rem: the occupied slots at or after the cycle index) --
+   after a turn that ends the call early because of an event (F11) the position is the next slot -- and that
+   the occupancy never changes.  For a master as constructed (cycle index 0) the first pass starts with all
+   occupied slots: pos_rem m0 = occupied m0. *)
+Theorem C14_one_turn_each : forall auto pa bufsize m0 cbs tr,
+  (dm_cycle m0 = CyCompleted -> occupied m0 <> []) ->
+  run_g auto pa bufsize m0 cbs = Ok tr ->
+  accepts (list nat) (cycle_inv (occupied m0)) (cycle_item (occupied m0)) (pos_rem m0) m0 tr.
+Proof. exact one_turn_each_history. Qed.
+Print Assumptions C14_one_turn_each.
+
+(* C14_cycle_completed_once: what acceptance by cycle_item means, per callback, from EVERY state with the
+   invariant: cycle_completed is reported by a callback iff the slot scheduler ran in it and the last turn
+   of the pass ended in it (for an empty master: iff the scheduler ran) -- hence exactly once per pass --
+   and then the whole of occ is due again. *)
+Theorem C14_cycle_completed_once : forall auto pa bufsize occ m rem c x log,
+  cycle_inv occ m rem -> cstep_g pa bufsize m c = Ok (x, log) ->
+  let it := mk_item auto m c x log in
+  exists rem',
+    turn_entries rem (it_log it) = Some rem' /\
+    (ev_cycle_completed (reported it) = true <-> (sched_ran it = true /\ rem' = [])) /\
+    cycle_inv occ (it_m it) (if ev_cycle_completed (reported it) then occ else rem').
+Proof. exact cycle_completed_once_step. Qed.
+Print Assumptions C14_cycle_completed_once.
+
+(* a turn is at most one request plus its retransmissions: all transmissions of one turn carry the same
+   frame count bit (sends_entry) and there are at most 1 + max_retry_limit of them *)
+Theorem C14_turn_is_one_request : forall auto pa bufsize m0 cbs tr,
+  (forall i p, slot m0 i = Some p -> pe_retry p = 0) ->
+  run_g auto pa bufsize m0 cbs = Ok tr ->
+  accepts (nat * option fcbit) sends_inv (sends_item (p_max_retry pa)) (0%nat, None) m0 tr.
+Proof. exact turn_sends_history. Qed.
+Print Assumptions C14_turn_is_one_request.
+
+(* the shape of one transmit_telegram call that is not a global control broadcast (call_shape): silent
+   turn ends, then a request (Some is returned) or ONE turn that ends with the Offline event (None is
+   returned, F11) or the end of the pass *)
+Theorem C14_call_shape : forall pa bufsize m now hp m' o log,
+  dp_transmit_g pa bufsize m now hp = Ok (m', o, log) -> existsb is_gc log = false -> call_shape log o.
+Proof. exact call_shape_transmit. Qed.
+Print Assumptions C14_call_shape.
+
+(* C14_no_event_lost: the application takes the events after every FdlApplication callback (auto = true;
+   further explicit CTake calls allowed anywhere).  Per callback the collected peripheral events are exactly
+   the events the Peripheral objects produced in it (with the handle of their slot), and cycle_completed
+   is collected exactly when reported; hence the whole collected sequence equals the produced sequence:
+   nothing lost, nothing duplicated, order kept. *)
+Theorem C14_no_event_lost : forall pa bufsize m0 cbs tr,
+  dm_events m0 = events_default ->
+  run_g true pa bufsize m0 cbs = Ok tr ->
+  Forall accounted tr /\
+  flat_map collected tr = flat_map produced tr /\
+  fold_right (fun it n => (collected_cc it + n)%nat) 0%nat tr =
+  fold_right (fun it n => (bool_nat (ev_cycle_completed (reported it)) + n)%nat) 0%nat tr.
+Proof. exact no_event_lost_history. Qed.
+Print Assumptions C14_no_event_lost.
+
+(* C14_lifecycle: per slot the produced events (= the collected ones, C14_no_event_lost) are accepted by
+   the life-cycle automaton DpOracle.l_step (the one the executable monitor runs on the implementation):
+   Online only from Off; Configured only after Online; DataExchanged / Diagnostics only after Configured;
+   Offline / ParameterError / ConfigError only while live, and lead to Off.  After every callback the
+   automaton state agrees with every peripheral (life_inv / agree): Off iff not live, Cfg whenever in
+   (Pre)DataExchange.  Needs max_retry_limit >= 1 (ParametersBuilder allows 1..15). *)
+Theorem C14_lifecycle : forall auto pa bufsize m0 life0 cbs tr,
+  1 <= p_max_retry pa -> life_inv m0 life0 ->
+  run_g auto pa bufsize m0 cbs = Ok tr ->
+  accepts (nat -> lstate) life_inv life_item life0 m0 tr.
+Proof. exact lifecycle_history. Qed.
+Print Assumptions C14_lifecycle.
+
+(* ... a master whose peripherals are fresh (Peripheral::new) starts with the automaton in Off everywhere *)
+Theorem C14_lifecycle_init : forall m,
+  (forall i p, slot m i = Some p -> fresh p) -> life_inv m (fun _ => LOff).
+Proof. exact fresh_life_inv. Qed.
+Print Assumptions C14_lifecycle_init.
+
+(* ... and `agree` in terms of the public getters *)
+Theorem C14_lifecycle_public : forall l p, agree l p ->
+  is_live p = negb (lstate_eqb l LOff) /\ (is_running p = true -> l = LCfg) /\
+  (l = LOff <-> pe_state p = PsOffline).
+Proof. exact agree_public. Qed.
+Print Assumptions C14_lifecycle_public.
+
+(* C14_gc_interleaving, one call, from EVERY master state: a global control broadcast is written only by a
+   transmit call with HighPrioOnly::No of a master that is not stopped when it is due; it is an SDN request
+   (expects_reply = None, so the FDL routes no reply), cycle position, slots and operating state are
+   untouched, the event slot is emptied (nothing is lost when events are taken after every callback:
+   C14_no_event_lost covers these calls); and when it is due it is sent whatever the cycle position. *)
+Theorem C14_gc_interleaving : forall pa bufsize m now hp m' o log,
+  dp_transmit_g pa bufsize m now hp = Ok (m', o, log) ->
+  existsb is_gc log = true ->
+  log = [GGc] /\ hp = false /\ dm_op m <> OpStop /\ gc_due pa m now = Ok true /\
+  (exists b w, (b = dp_gc_clear /\ dm_op m = OpClear \/ b = dp_gc_operate /\ dm_op m = OpOperate) /\
+               send_data bufsize (gc_header pa) [b; dp_gc_groups] = Ok (w, None) /\ o = Some (w, None)) /\
+  dm_cycle m' = dm_cycle m /\ dm_slots m' = dm_slots m /\ pos_rem m' = pos_rem m /\
+  dm_events m' = events_default /\ dm_last_gc m' = Some now /\ dm_op m' = dm_op m.
+Proof. exact gc_broadcast. Qed.
+Print Assumptions C14_gc_interleaving.
+
+Theorem C14_gc_when_due : forall pa bufsize m now,
+  dm_op m <> OpStop -> gc_due pa m now = Ok true ->
+  match dp_transmit_g pa bufsize m now false with
+  | Ok (_, _, log) => log = [GGc]
+  | Panic _ => True
+  | OutOfFuel => False
+  end.
+Proof. exact gc_when_due. Qed.
+Print Assumptions C14_gc_when_due.
+
+(* at most one broadcast per interval (gc_item): between two broadcasts without an enter_state in between
+   at least slot_time * dp_gc_interval_slots (regenerated: 50) elapse *)
+Theorem C14_gc_interval : forall auto pa bufsize m0 cbs tr,
+  run_g auto pa bufsize m0 cbs = Ok tr ->
+  accepts (option Z) gc_inv (gc_item pa) (dm_last_gc m0) m0 tr.
+Proof. exact gc_interval_history. Qed.
+Print Assumptions C14_gc_interval.
+
+(* C14_zero_peripherals (F4): an empty master returns None at once having reported cycle_completed ... *)
+Theorem C14_zero_peripherals : forall pa bufsize m now hp index,
+  occupied m = [] -> dm_cycle m = CyDataExchange index -> dm_op m <> OpStop ->
+  (hp = true \/ gc_due pa m now = Ok false) ->
+  dp_transmit pa bufsize m now hp =
+    Ok (set_events (set_cycle m (CyDataExchange 0)) (mkEvents true None), None).
+Proof. exact zero_peripherals_tx. Qed.
+Print Assumptions C14_zero_peripherals.
+
+(* ... and in every history of an empty master every transmit call returns None (with cycle_completed
+   unless stopped) or writes a global control broadcast, and no reply is ever processed (empty_item) *)
+Theorem C14_zero_peripherals_history : forall auto pa bufsize m0 cbs tr,
+  occupied m0 = [] -> dm_cycle m0 <> CyCompleted ->
+  run_g auto pa bufsize m0 cbs = Ok tr -> Forall empty_item tr.
+Proof. exact zero_peripherals_history. Qed.
+Print Assumptions C14_zero_peripherals_history.
+
+(* C14_contract_safe: after any history that respects the FdlApplication contract (pend_run: replies and
+   time-outs only for the outstanding request, replies only as admitted by the FDL, C15) a reply within
+   the contract is processed without panic: the unreachable!() sites of DpMaster::receive_reply and the
+   unwrap / unreachable of Peripheral::receive_reply are never hit *)
+Theorem C14_contract_safe : forall auto pa bufsize m0 cbs tr a t,
+  safe_init m0 -> run_g auto pa bufsize m0 cbs = Ok tr ->
+  pend_run (p_address pa) None tr = Some (Some a) -> admissible (p_address pa) a t = true ->
+  exists m', dp_receive_reply (final m0 tr) a t = Ok m'.
+Proof. exact contract_safe_history. Qed.
+Print Assumptions C14_contract_safe.
+
+(* non-vacuity: a history on a sparse slot vector [None; 7; None; 9] (max_retry_limit 1): global control
+   first; slot 1 is asked, answers its diagnostics request (Online); slot 3 is asked, times out, its probe
+   turn ends: cycle completed; slot 1 gets Set_Prm twice without answer, goes Offline: the call ends with
+   the event (F11) and the NEXT call continues with slot 3; cycle completed; a new pass starts at slot 1.
+   The history respects the contract, and the produced events are Online, Offline of slot 1. *)
+Example C14_history_example :
+  let opts := mkOpts 4660 false false 0 0 false (Some [1; 2]) (Some [3]) in
+  let m0 := set_slots (dp_new 4 false)
+              [None; Some (periph_new 7 opts [0; 0] [0] 0); None; Some (periph_new 9 opts [] [] 0)] in
+  let diag := TData (mkHeader 1 7 (Some 62) (Some 60) (FcResponse RsSlave StDataLow)) [0; 12; 0; 1; 18; 52] in
+  let cbs := [CEnter OpOperate; CTx 0 false; CTx 1 false; CRx 7 diag; CTx 2 false; CTo 9; CTx 3 false;
+              CTx 4 false; CTx 5 false; CTx 6 false; CTx 7 false; CTx 8 false; CTx 9 false] in
+  let tag e := match e with
+               | GSend i _ _ _ _ => (1, i) | GSkip i _ _ _ => (2, i) | GReply i _ _ _ _ => (3, i) | GGc => (4, 0)
+               end%nat in
+  exists tr, run_g true default_params 256 m0 cbs = Ok tr /\
+    map (fun it => (map tag (it_log it), ev_cycle_completed (reported it))) tr =
+      [([], false); ([(4, 0)], false); ([(1, 1)], false); ([(3, 1)], false); ([(1, 3)], false); ([], false);
+       ([(2, 3)], true); ([(1, 1)], false); ([(1, 1)], false); ([(2, 1)], false); ([(1, 3)], false);
+       ([(2, 3)], true); ([(1, 1)], false)]%nat /\
+    flat_map collected tr = [(mkHandle 1 7, EvOnline); (mkHandle 1 7, EvOffline)] /\
+    pend_run (p_address default_params) None tr = Some (Some 7).
+Proof.
+  cbv zeta. eexists. split; [vm_compute; reflexivity|]. split; [vm_compute; reflexivity|].
+  split; vm_compute; reflexivity.
+Qed.
